@@ -155,6 +155,7 @@ package openid
 //@ spec func sigkey(k string) bool = exists t string :: k == hmacsig(t)
 //@ interface OpenIDConnectRequestStorage.GetOpenIDConnectSession
 //@   modifies faults
+//@   ensures result != nil && stored[result] ==> shared[result] && shared[result.GetSession()] && (implements(result.GetSession(), Session) ==> shared[cast(result.GetSession(), Session).IDTokenClaims()] && shared[cast(result.GetSession(), Session).IDTokenHeaders()])
 //@   ensures err == nil ==> oidc_exists[authorizeCode] && result != nil && result == oidc_req[authorizeCode] && faults == old(faults)
 //@   ensures err != nil && eis(err, fosite.ErrNotFound) ==> !oidc_exists[authorizeCode] && faults == old(faults)
 //@   ensures err != nil && !eis(err, fosite.ErrNotFound) ==> faults == old(faults) + 1
@@ -180,7 +181,8 @@ package openid
 //@ func (*OpenIDConnectExplicitHandler).PopulateTokenEndpointResponse
 //@   let code = old(formget(requester.GetRequestForm(), "code"))
 //@   let stored = old(oidc_req[formget(requester.GetRequestForm(), "code")])
-//@   requires c != nil && requester != nil && responder != nil && requester.GetClient() != nil && c.OpenIDConnectRequestStorage != nil && c.IDTokenHandleHelper != nil && c.IDTokenHandleHelper.IDTokenStrategy != nil
+//@   requires c != nil && requester != nil && responder != nil && requester.GetClient() != nil && c.OpenIDConnectRequestStorage != nil && c.IDTokenHandleHelper != nil && c.IDTokenHandleHelper.IDTokenStrategy != nil && !shared[requester] && !shared[responder] && !shared[requester.GetSession()] && (implements(requester.GetSession(), Session) ==> !shared[cast(requester.GetSession(), Session).IDTokenClaims()])
+//@   protects [C19.no-write-to-store-owned-session] shared
 //@   requires forall r fosite.Requester :: implements(r.GetSession(), Session) ==> cast(r.GetSession(), Session).IDTokenClaims() != nil && cast(r.GetSession(), Session).IDTokenHeaders() != nil
 //@   modifies anyheap, oidc_exists, faults, tx_escaped, hash_data, is_hash, hash_alg, buf_data
 //@   ensures [C14.needs-oidc-session-and-subject] err == nil ==> old(oidc_exists[code]) && cast(stored, fosite.Requester).GetGrantedScopes().Has("openid") && requester.GetClient().GetGrantTypes().Has("authorization_code")
@@ -193,12 +195,14 @@ package openid
 // c_hash empty and draws a new jti.
 //@ func (*OpenIDConnectRefreshHandler).HandleTokenEndpointRequest
 //@   let claims = cast(request.GetSession(), Session).IDTokenClaims()
-//@   requires c != nil && request != nil && request.GetClient() != nil
+//@   requires c != nil && request != nil && request.GetClient() != nil && !shared[request] && !shared[request.GetSession()] && (implements(request.GetSession(), Session) ==> !shared[cast(request.GetSession(), Session).IDTokenClaims()])
 //@   requires implements(request.GetSession(), Session) ==> claims != nil
+//@   protects [C19.no-write-to-store-owned-session] shared
 //@   modifies fields(cast(request.GetSession(), Session).IDTokenClaims())
 //@   ensures [C14.refresh-resets-claims] err == nil ==> implements(request.GetSession(), Session) && request.GetGrantedScopes().Has("openid") && request.GetClient().GetGrantTypes().Has("refresh_token") && claims.ExpiresAt == 0 && claims.JTI == "" && claims.AccessTokenHash == "" && claims.CodeHash == ""
 //@ func (*OpenIDConnectRefreshHandler).PopulateTokenEndpointResponse
-//@   requires c != nil && requester != nil && responder != nil && requester.GetClient() != nil && c.IDTokenHandleHelper != nil && c.IDTokenHandleHelper.IDTokenStrategy != nil
+//@   requires c != nil && requester != nil && responder != nil && requester.GetClient() != nil && c.IDTokenHandleHelper != nil && c.IDTokenHandleHelper.IDTokenStrategy != nil && !shared[requester] && !shared[responder] && !shared[requester.GetSession()] && (implements(requester.GetSession(), Session) ==> !shared[cast(requester.GetSession(), Session).IDTokenClaims()])
+//@   protects [C19.no-write-to-store-owned-session] shared
 //@   requires implements(requester.GetSession(), Session) ==> cast(requester.GetSession(), Session).IDTokenClaims() != nil && cast(requester.GetSession(), Session).IDTokenHeaders() != nil
 //@   modifies anyheap, hash_data, is_hash, hash_alg, buf_data
 //@   ensures [C14.needs-oidc-session-and-subject] err == nil ==> requester.GetGrantedScopes().Has("openid") && requester.GetClient().GetGrantTypes().Has("refresh_token")
@@ -206,7 +210,8 @@ package openid
 
 // Device flow: same rules; the stored session is looked up and deleted under the device code's signature.
 //@ func (*OpenIDConnectDeviceHandler).PopulateTokenEndpointResponse
-//@   requires c != nil && requester != nil && responder != nil && requester.GetClient() != nil && c.OpenIDConnectRequestStorage != nil && c.DeviceCodeStrategy != nil && c.IDTokenHandleHelper != nil && c.IDTokenHandleHelper.IDTokenStrategy != nil
+//@   requires c != nil && requester != nil && responder != nil && requester.GetClient() != nil && c.OpenIDConnectRequestStorage != nil && c.DeviceCodeStrategy != nil && c.IDTokenHandleHelper != nil && c.IDTokenHandleHelper.IDTokenStrategy != nil && !shared[requester] && !shared[responder] && !shared[requester.GetSession()] && (implements(requester.GetSession(), Session) ==> !shared[cast(requester.GetSession(), Session).IDTokenClaims()])
+//@   protects [C19.no-write-to-store-owned-session] shared
 //@   requires forall r fosite.Requester :: implements(r.GetSession(), Session) ==> cast(r.GetSession(), Session).IDTokenClaims() != nil && cast(r.GetSession(), Session).IDTokenHeaders() != nil
 //@   modifies anyheap, oidc_exists, faults, tx_escaped, hash_data, is_hash, hash_alg, buf_data
 //@   ensures [C14.needs-oidc-session-and-subject] err == nil ==> requester.GetClient().GetGrantTypes().Has("urn:ietf:params:oauth:grant-type:device_code")
